@@ -300,3 +300,267 @@ func TestC12_BuildOrders(t *testing.T) {
 		}, cl...)
 	})
 }
+
+// ---------------------------------------------------------------- generations
+//
+// Several programs (generations) share ONE lpm_array_map and ONE routing_map.
+// buildRoutingKernspace first writes the new LPM slots and only then swaps
+// routing_map, so while a build runs the previously written rules are still live
+// ("hot-reload windows where old and new rules may overlap briefly", comment on
+// globalNextLpmIndex). The slots those rules point at must therefore still hold
+// their own sets after the next build's LPM writes; and after the swap the new
+// rules must resolve, in the shared array, to their own sets. Production sequences:
+// prepare generation N+1 (New… → KernspaceSnapshot → BuildUserspace) while N is
+// live, commit it (snapshot.BuildKernspace), roll back (rebuild N), rebuild the same
+// generation twice. Ring assumption taken from the code: MaxMatchSetLen (1024)
+// slots handed out consecutively; a slot may legitimately be reused only once the
+// cursor has wrapped, i.e. when two consecutive builds together need more than
+// MaxMatchSetLen slots — never the case here (≤ ~30 per program), asserted below.
+
+type c12Generation struct {
+	rules []c12RuleT
+	conds []c12Cond
+	snap  *routingKernspaceSnapshot
+	m     *RoutingMatcher
+}
+
+type c12Delivery struct {
+	gen   int
+	rules []bpfMatchSet            // rewritten rules as written to routing_map
+	slots map[uint32][]netip.Prefix // slot -> set handed to the kernel (decoded keys)
+}
+
+func c12KeysToPrefixes(keys []_bpfLpmKey) ([]netip.Prefix, error) {
+	out := make([]netip.Prefix, 0, len(keys))
+	for _, k := range keys {
+		raw, err := c12RawKey(k)
+		if err != nil {
+			return nil, err
+		}
+		pl := binary.NativeEndian.Uint32(raw[:4])
+		if pl > c12MaxPrefixLen {
+			return nil, fmt.Errorf("kernel would reject key %+v: prefixlen %d", k, pl)
+		}
+		var a [16]byte
+		copy(a[:], raw[4:])
+		out = append(out, netip.PrefixFrom(netip.AddrFrom16(a), int(pl)))
+	}
+	return out, nil
+}
+
+func TestC12_Generations(t *testing.T) {
+	known := vkKnown("F2")
+	maxEntries := uint32(consts.MaxMatchSetLen)
+	rapid.Check(t, func(t *rapid.T) {
+		defer verifSetHooks(nil)
+		g := c12NewGen(t, known)
+		log := c12Log()
+		start := uint32(0)
+		switch rapid.IntRange(0, 2).Draw(t, "ringstart") {
+		case 1:
+			start = maxEntries - uint32(rapid.IntRange(1, 40).Draw(t, "ringback"))
+		case 2:
+			start = uint32(rapid.IntRange(0, int(maxEntries)-1).Draw(t, "ringany"))
+		}
+		globalNextLpmIndex.Store(start)
+
+		ngen := rapid.IntRange(2, 4).Draw(t, "ngen")
+		gens := make([]*c12Generation, ngen)
+		var macPoolAll [][6]byte
+		var addrPool [][16]byte
+		hasMac := false
+		for gi := range gens {
+			rules, bases, macPool := c12GenRules(t, g)
+			if rapid.IntRange(0, 2).Draw(t, "addmac") > 0 {
+				// mac() sets take an LPM trie without a dedup entry
+				cond := c12Cond{Fn: "mac", Not: rapid.IntRange(0, 3).Draw(t, "macnot") == 0, Base: -1}
+				for i, n := 0, rapid.IntRange(1, 3).Draw(t, "nmac"); i < n; i++ {
+					mm := c12GenMac(t, macPool)
+					macPool = append(macPool, mm)
+					cond.Macs = append(cond.Macs, mm)
+				}
+				pos := rapid.IntRange(0, len(rules)).Draw(t, "macpos")
+				nr := c12RuleT{Conds: []c12Cond{cond}}
+				rules = append(rules[:pos:pos], append([]c12RuleT{nr}, rules[pos:]...)...)
+			}
+			for r := range rules {
+				rules[r].Out = fmt.Sprintf("g%d", r+3)
+			}
+			gen := &c12Generation{rules: rules}
+			for _, r := range rules {
+				for _, c := range r.Conds {
+					gen.conds = append(gen.conds, c)
+					if c.Fn == "mac" {
+						hasMac = true
+					} else {
+						ps, _ := g.probes(t, c.Set, 0)
+						addrPool = append(addrPool, ps...)
+					}
+				}
+			}
+			for _, bs := range bases {
+				ps, _ := g.probes(t, bs, 1)
+				addrPool = append(addrPool, ps...)
+			}
+			macPoolAll = append(macPoolAll, macPool...)
+			// prepare, as newControlPlane does with delayDatapathCommit
+			b, err := NewRoutingMatcherBuilder(log, c12ConfigRules(rules), c12OutboundMap(len(rules)), &bpfObjects{}, "fb")
+			if err != nil {
+				t.Fatalf("NewRoutingMatcherBuilder(%s): %v", c12RulesString(rules), err)
+			}
+			gen.snap = b.KernspaceSnapshot()
+			if gen.m, err = b.BuildUserspace(); err != nil {
+				t.Fatalf("BuildUserspace: %v", err)
+			}
+			gens[gi] = gen
+		}
+		type tuple struct{ src, dst, mac [16]byte }
+		tuples := make([]tuple, rapid.IntRange(6, 20).Draw(t, "ntuples"))
+		for i := range tuples {
+			tuples[i] = tuple{rapid.SampledFrom(addrPool).Draw(t, "src"), rapid.SampledFrom(addrPool).Draw(t, "dst"), c12Mac16(c12GenMac(t, macPoolAll))}
+		}
+
+		// the shared kernel state
+		array := map[uint32][]netip.Prefix{} // lpm_array_map: slot -> latest set
+		var live *c12Delivery                // whose rules routing_map holds
+		var trace []string
+
+		// resolve checks that delivery d's rules, looked up in the shared array,
+		// denote the sets of its generation's conditions.
+		resolve := func(d *c12Delivery, when string) {
+			gen := gens[d.gen]
+			for i, c := range gen.conds {
+				slot := binary.LittleEndian.Uint32(d.rules[i].Value[:4])
+				cur, ok := array[slot]
+				if !ok {
+					t.Fatalf("builds %v, %s: generation %d condition %d %s points at lpm_array_map slot %d, which is empty", trace, when, d.gen, i, c, slot)
+				}
+				if !c12SameAddrs(c, cur) {
+					t.Fatalf("builds %v, %s: generation %d condition %d %s resolves through lpm_array_map slot %d to %v — another set (it was given %v)\nprogram: %s",
+						trace, when, d.gen, i, c, slot, cur, d.slots[slot], c12RulesString(gen.rules))
+				}
+			}
+		}
+
+		nbuilds := rapid.IntRange(2, 5).Draw(t, "nbuilds")
+		rebuilt, switched := 0, 0
+		for bi := 0; bi < nbuilds; bi++ {
+			gi := rapid.IntRange(0, ngen-1).Draw(t, "buildgen")
+			if live != nil && rapid.IntRange(0, 3).Draw(t, "rollback") == 0 {
+				gi = live.gen // RebuildReloadDatapath: same generation again
+			}
+			gen := gens[gi]
+			what := fmt.Sprintf("gen%d", gi)
+			trace = append(trace, what)
+			var gotLpm []lpmMapResult
+			var gotRules []bpfMatchSet
+			delivered := 0
+			verifSetHooks(&verifHooks{Kernspace: func(lpm []lpmMapResult, kernRules []bpfMatchSet, routingsLen uint32) {
+				gotLpm, gotRules = lpm, append([]bpfMatchSet(nil), kernRules...)
+				delivered++
+			}})
+			_, err := gen.snap.BuildKernspace(log, &bpfObjects{})
+			verifSetHooks(nil)
+			if err != nil || delivered != 1 || len(gotRules) != len(gen.conds)+1 {
+				t.Fatalf("builds %v: BuildKernspace err=%v delivered=%d rules=%d (want %d)", trace, err, delivered, len(gotRules), len(gen.conds)+1)
+			}
+			d := &c12Delivery{gen: gi, rules: gotRules, slots: map[uint32][]netip.Prefix{}}
+			for _, r := range gotLpm {
+				if r.lpmIndex >= maxEntries {
+					t.Fatalf("builds %v: slot %d out of range", trace, r.lpmIndex)
+				}
+				if _, dup := d.slots[r.lpmIndex]; dup {
+					t.Fatalf("builds %v: slot %d written twice in one build", trace, r.lpmIndex)
+				}
+				ps, err := c12KeysToPrefixes(r.keys)
+				if err != nil {
+					t.Fatalf("builds %v: slot %d: %v", trace, r.lpmIndex, err)
+				}
+				d.slots[r.lpmIndex] = ps
+			}
+			if live != nil && len(live.slots)+len(d.slots) > int(maxEntries) {
+				t.Skip("harness assumption broken: two consecutive builds exceed the ring")
+			}
+			// step 1 of the build: LPM slots are written; routing_map still holds the
+			// previous rules.
+			for slot, ps := range d.slots {
+				array[slot] = ps
+			}
+			if live != nil {
+				resolve(live, fmt.Sprintf("while build #%d (%s) has written its LPM slots and the rules of the previous build (gen%d) are still in routing_map", bi, what, live.gen))
+				if live.gen == gi {
+					rebuilt++
+				} else {
+					switched++
+				}
+			}
+			// step 2: routing_map is swapped.
+			live = d
+			resolve(live, fmt.Sprintf("after build #%d (%s)", bi, what))
+			// outcomes: route() over the shared array vs containment vs this
+			// generation's userspace matcher.
+			kernOf := make([]*c12Kern, len(gen.conds))
+			for i := range gen.conds {
+				slot := binary.LittleEndian.Uint32(d.rules[i].Value[:4])
+				for _, r := range gotLpm {
+					if r.lpmIndex == slot {
+						k := c12NewKern()
+						if err := k.load(r.keys); err != nil {
+							t.Fatalf("builds %v: slot %d: %v", trace, slot, err)
+						}
+						kernOf[i] = k
+					}
+				}
+				if kernOf[i] == nil {
+					t.Fatalf("builds %v: generation %d rule %d points at slot %d, not written by its own build", trace, gi, i, slot)
+				}
+			}
+			for _, tp := range tuples {
+				want, judged := c12Expect(gen.rules, tp.src, tp.dst, tp.mac)
+				if !judged {
+					continue
+				}
+				kout := c12KernOutcome(gen.rules, kernOf, tp.src, tp.dst, tp.mac)
+				ipv := consts.IpVersion_6
+				if c12Is4In6(tp.dst) {
+					ipv = consts.IpVersion_4
+				}
+				uout, _, _, err := gen.m.Match(tp.src, tp.dst, 1, 2, ipv, consts.L4ProtoType_UDP, "", [16]uint8{}, 0, tp.mac)
+				if err != nil {
+					t.Fatalf("Match: %v", err)
+				}
+				if kout != want || uint8(uout) != want {
+					t.Fatalf("builds %v: gen%d src %v dst %v mac %x: kernel keys -> %d, userspace -> %d, containment -> %d\nprogram: %s",
+						trace, gi, netip.AddrFrom16(tp.src), netip.AddrFrom16(tp.dst), tp.mac[10:], kout, uout, want, c12RulesString(gen.rules))
+				}
+			}
+		}
+		if g.exclN > 0 {
+			vkExcluded("C12.generations", "F2")
+		}
+		cl := []string{}
+		if hasMac {
+			cl = append(cl, "has_mac_set")
+		}
+		if rebuilt > 0 {
+			cl = append(cl, "rebuild_same_generation")
+		}
+		if switched > 0 {
+			cl = append(cl, "switch_generation")
+		}
+		if start+64 > maxEntries {
+			cl = append(cl, "ring_near_wrap")
+		}
+		key := ""
+		if hasMac || switched > 0 {
+			ps := []string{}
+			for _, gen := range gens {
+				ps = append(ps, c12RulesString(gen.rules))
+			}
+			key = strings.Join(trace, ">") + "|" + strings.Join(ps, "||")
+		}
+		vkCase("C12.generations", key, func() any {
+			return map[string]any{"builds": strings.Join(trace, " > "), "generations": ngen, "ring_start": start}
+		}, cl...)
+	})
+}
